@@ -6,6 +6,7 @@ import (
 	"errors"
 	"fmt"
 	"io"
+	"math"
 	"reflect"
 	"time"
 	"unicode/utf8"
@@ -627,7 +628,11 @@ func (c *UintConverter) To(obj Object) (interface{}, error) {
 }
 
 func (c *UintConverter) From(obj interface{}) (Object, error) {
-	return NewInt(int64(obj.(uint))), nil
+	v := obj.(uint)
+	if uint64(v) > math.MaxInt64 {
+		return nil, fmt.Errorf("value error: uint value %d overflows int", v)
+	}
+	return NewInt(int64(v)), nil
 }
 
 // Uint8Converter converts between uint8 and *Int.
@@ -707,7 +712,11 @@ func (c *Uint64Converter) To(obj Object) (interface{}, error) {
 }
 
 func (c *Uint64Converter) From(obj interface{}) (Object, error) {
-	return NewInt(int64(obj.(uint64))), nil
+	v := obj.(uint64)
+	if v > math.MaxInt64 {
+		return nil, fmt.Errorf("value error: uint64 value %d overflows int", v)
+	}
+	return NewInt(int64(v)), nil
 }
 
 // Float32Converter converts between float32 and *Float.
